@@ -20,7 +20,7 @@ CHECKS = {
         design="4/C15",
     ),
     "C09": dict(
-        specs=["XorFileR.tla", "XorFile.tla", "XorFileG.tla", "XorFileTrace.tla", "XorFileIO.tla", "CliTools.tla", "CliToolsIO.tla"],
+        specs=["XorFileR.tla", "XorFile.tla", "XorFileG.tla", "XorFileTrace.tla", "XorFileIO.tla", "CliTools.tla", "CliToolsIO.tla", "Resume.tla"],
         text="TLC checks that XorEncodedFile's read algorithm (look-behind nonce, first-dword mixing, 4-byte chunk loop, cursor "
         "restore) refines a read-only file over the plaintext for all plaintexts of the small model and every interleaving of "
         "seek/read/tell; the complete state graph of the reference file machine is dumped by TLC and every transition is "
